@@ -32,6 +32,14 @@ attribute filled by the constructor; methods of locally constructed instances re
 work on user values (control-dependent CFG region of the test, conditional expressions, short-circuit operands,
 comprehension filters; value kinds LIVE / CONT / PLAIN from declared types and value flow; callees decided
 interprocedurally on the kinds of the arguments bound).
+Round 6 (seed6 C10-b): D1 trace-only-work-contained: the trace-only blocks / conditional-expression arms of execute()
+from which the run can still return (CFG: a normal return is reachable; the blocks of the re-raising handlers are the
+known R9 report) and the orchestrator / trace-package functions called from there run no callable held as data (an
+attribute the code treats as data - constructor keyword, attribute store, read as a value -, a local, a parameter,
+`getattr(..)()`, a table entry; values the code itself puts there are followed into lambdas, nested defs and closures
+returned by a factory) and no trace-package function with an open hook operation (value kinds of the arguments bound,
+_ModeAnalysis) outside a containing try: moving work that both modes do (context delta, post checks) under the trace
+test makes its failures trace-only.
 """
 from __future__ import annotations
 
@@ -429,6 +437,7 @@ def run(repo: Repo, R: Report) -> None:
     _caller_data_reaches_sink_sanitised(repo, R)
     _driver_reusable_after_close(repo, R)
     _mode_selected_work_contained(repo, R, ex, fold)
+    _trace_only_work_contained(repo, R, ex, facts, drivers)
     # the caller-owned canonical spec is not mutated (pipeline_id would depend on history)
     from . import c04
 
@@ -2675,3 +2684,260 @@ def _report_mode(R: Report, r, rel: str, qn: str, st: ast.AST, test: ast.AST, ba
         line = getattr(n, "lineno", line)
         what = f"`{norm(stmt_of(n))[:70]}` is executed for one outcome of `{norm(test)[:50]}` (a value derived from the trace driver) and not for the other, outside any containing try: `{norm(n)[:40]}` is a {kind} - a context / payload value whose hook raises (a numpy array with more than one element in a truth test, ...) makes the run raise with one trace setting and return with another, so attaching a driver changes what the run raises"
     R.check(not bad, r, rel, qn, f"work selected by `{norm(test)[:60]}` is contained", what, line)
+
+
+# ---------------------------------------------------------------------------------------------------------
+# D1 (round 6): work that execute() does only when a trace is attached, on a path from which the run can still return,
+# runs no code the framework does not control and no trace-package function with an open hook outside a containing try
+# ---------------------------------------------------------------------------------------------------------
+def _trace_package(rel: str) -> bool:
+    base = UTILS.rsplit("/", 1)[0] + "/"
+    return rel.startswith(base) and not rel.startswith(base + "drivers/")
+
+
+def _local_def(fn: ast.AST, name: ast.Name) -> Optional[ast.AST]:
+    """The nested `def` a name in call position stands for (innermost enclosing function that defines it)."""
+    for a in ancestors(name):
+        if isinstance(a, FuncNode):
+            d = _nested_defs(a).get(name.id)
+            if d is not None:
+                return d
+    return None
+
+
+def _nested_defs(fn: ast.AST) -> Dict[str, ast.AST]:
+    """name -> `def` written in the body of *fn* (at any statement depth, not inside a further function or class)."""
+    out: Dict[str, ast.AST] = {}
+    todo = list(ast.iter_child_nodes(fn))
+    while todo:
+        n = todo.pop()
+        if isinstance(n, FuncNode):
+            out.setdefault(n.name, n)
+            continue
+        if isinstance(n, (ast.ClassDef, ast.Lambda)):
+            continue
+        todo.extend(ast.iter_child_nodes(n))
+    return out
+
+
+def _binds_locally(name: ast.Name) -> bool:
+    """Is the name a parameter or a local of one of the functions it is written in (as opposed to a builtin, an
+    import or a module-level definition)?"""
+    for a in ancestors(name):
+        if isinstance(a, FuncNode + (ast.Lambda,)):
+            if name.id in {x.arg for x in a.args.posonlyargs + a.args.args + a.args.kwonlyargs + [y for y in (a.args.vararg, a.args.kwarg) if y is not None]}:
+                return True
+            if not isinstance(a, ast.Lambda) and (name.id in _nested_defs(a) or any(isinstance(x, ast.Name) and x.id == name.id and isinstance(x.ctx, ast.Store) for x in walk_no_nested(a))):
+                return True
+    return False
+
+
+def _closures_returned(repo: Repo, mod, v: ast.AST) -> Optional[List[ast.AST]]:
+    """`factory(..)` where every repository target of the call returns one of its own nested functions / a lambda:
+    those callables; None when the value is not of that shape."""
+    if not isinstance(v, ast.Call):
+        return None
+    tg = [(m, t) for m, t in repo.resolve_call(mod, v) if isinstance(t, FuncNode)]
+    if not tg:
+        return None
+    out: List[ast.AST] = []
+    for _m, t in tg:
+        rets = [n.value for n in walk_no_nested(t) if isinstance(n, ast.Return)]
+        if not rets:
+            return None
+        for rv in rets:
+            if isinstance(rv, ast.Lambda):
+                out.append(rv)
+            elif isinstance(rv, ast.Name) and _local_def(t, rv) is not None:
+                out.append(_local_def(t, rv))
+            else:
+                return None
+    return out
+
+
+def _stored_callable(fn: ast.AST, c: ast.Call) -> Optional[List[ast.AST]]:
+    """`X.a(..)` with X a local: the values the data attribute `a` of X is known to hold when the code itself treats
+    `a` as data - it is given to the constructor call X is bound to as a keyword, assigned (`X.a = v`), or read as a
+    value somewhere in the function (`if X.a`, `X.a if X.a else ..`).  None: nothing says `a` is a stored callable
+    (a method of an object of unknown class)."""
+    f = c.func
+    if not (isinstance(f, ast.Attribute) and isinstance(f.value, ast.Name) and f.value.id not in ("self", "cls")):
+        return None
+    x, a = f.value.id, f.attr
+    scope = next((s for s in ancestors(c) if isinstance(s, FuncNode)), fn)
+    vals: List[ast.AST] = []
+    evidence = False
+    for b in _lookup(scope, f.value):
+        if isinstance(b, ast.Call):
+            for k in b.keywords:
+                if k.arg == a:
+                    vals.append(k.value)
+                    evidence = True
+    for n in ast.walk(scope):
+        if isinstance(n, ast.Attribute) and n.attr == a and isinstance(n.value, ast.Name) and n.value.id == x:
+            par = getattr(n, "_parent", None)
+            if isinstance(n.ctx, ast.Store):
+                evidence = True
+                if isinstance(par, (ast.Assign, ast.AnnAssign)) and getattr(par, "value", None) is not None:
+                    vals.append(par.value)
+                else:
+                    vals.append(ast.Name(id="?", ctx=ast.Load()))
+            elif isinstance(n.ctx, ast.Load) and not (isinstance(par, ast.Call) and par.func is n):
+                evidence = True
+    return vals if evidence else None
+
+
+def _trace_only_work_contained(repo: Repo, R: Report, ex: ast.AST, facts: "_TraceFacts", drivers: Set[str]) -> None:
+    r = R.rule("C10-D1-trace-only-work-contained", "what execute() does only when a trace is attached, on a path from which the run can still return normally (the trace-only blocks and conditional-expression arms outside a handler that re-raises, and the orchestrator / trace-package functions called from there), contains every piece of work that can fail on user values: no call of a callable the code holds as data (a provider kept in an attribute of a hook bundle, a callable taken from a local, a parameter, `getattr` or a table - whoever filled it decides what runs) and no call of a trace-package function with an operation on a context / payload value (comparison, truth test, hook call) outside a try that contains Exception - such work raises only in the traced run, so attaching a driver would change what the run raises; work that both modes do (context delta, post checks) stays outside the trace-only code", 3)
+    omod = repo.module(ORCH)
+    fold = facts.fold
+    g = CFG(ex, may_raise=lambda p: set())
+    flags = {facts.param} | facts.pos | facts.nn | facts.neg
+    ma = _ModeAnalysis(repo)
+    vks: Dict[int, _ValueKinds] = {}
+    done: Dict[int, List[Tuple[str, str, ast.AST, str]]] = {}
+
+    def vk_of(mod, fn: ast.AST) -> _ValueKinds:
+        if id(fn) not in vks:
+            vks[id(fn)] = _ValueKinds(repo, mod, fn, flags=flags if fn is ex else frozenset())
+        return vks[id(fn)]
+
+    def callee(mod, fn: ast.AST, c: ast.Call, m, t: ast.AST, depth: int) -> List[Tuple[str, str, ast.AST, str]]:
+        """Findings of a call of the repository function *t*."""
+        out: List[Tuple[str, str, ast.AST, str]] = []
+        if not (m.rel == ORCH or _trace_package(m.rel)) or t.name == "__init__" and not list(calls_in(t)):
+            return out
+        if _trace_package(m.rel) and isinstance(fn, FuncNode):
+            b = _bind_call(t, c)
+            if b is not None:
+                vk = vk_of(mod, fn)
+                seed = {p: vk.of(a) for p, a in b.items() if vk.of(a) != PLAIN}
+                if seed:
+                    cvk = _ValueKinds(repo, m, t, seed=seed)
+                    opn = ma.open_hooks(m, cvk, list(t.body), 1)
+                    if opn:
+                        n, kind = opn[0]
+                        out.append((mod.rel, qualname_of(fn), c, f"`{norm(c)[:70]}` runs {qualname_of(t)}() of {m.rel}, where `{norm(n)[:60]}` (line {getattr(n, 'lineno', 0)}) is a {kind} outside any containing try"))
+        if id(t) not in done:
+            done[id(t)] = []  # recursion: the outer visit decides
+            done[id(t)] = scan(m, t, list(t.body), depth + 1) if depth < 5 else []
+        return out + done[id(t)]
+
+    def scan(mod, fn: ast.AST, roots: List[ast.AST], depth: int) -> List[Tuple[str, str, ast.AST, str]]:
+        """(file, function, call, why) for the uncontained calls below *roots* that run code held as data, or a
+        trace-package function with an open hook."""
+        out: List[Tuple[str, str, ast.AST, str]] = []
+        qn = qualname_of(fn) if isinstance(fn, FuncNode) else EXECUTE
+        for root in roots:
+            for c in sorted([x for x in ast.walk(root) if isinstance(x, ast.Call)], key=lambda x: (x.lineno, x.col_offset)):
+                if contained(c):
+                    continue
+                if fn is ex and _orch.is_driver_call(c, drivers):
+                    continue
+                if (call_name(c) or "") in _TOTAL_CALLS:
+                    continue
+                f = c.func
+                targets = [(m, t) for m, t in (repo.resolve_call(mod, c) or _method_of_local_instance(repo, mod, c)) if isinstance(t, FuncNode)]
+                if targets:
+                    for m, t in targets:
+                        out.extend(callee(mod, fn, c, m, t, depth))
+                    continue
+                defs: Optional[List[ast.AST]] = None
+                held = ""
+                if isinstance(f, ast.Name):
+                    if not _binds_locally(f):
+                        continue  # a builtin / an imported name outside the repository
+                    d = _local_def(fn, f)
+                    defs = [d] if d is not None else _callee_defs(repo, mod, fn, f)
+                    held = f"the callable held in the local / parameter `{f.id}`"
+                elif isinstance(f, ast.Attribute):
+                    vals = _stored_callable(fn, c)
+                    if vals is None:
+                        # a method of an object whose class is not known here (a collector handed down as an argument):
+                        # the trace-package methods of that name; methods of user values are decided by the
+                        # hook-containment rules
+                        for m, t in repo.resolve_call_by_name(c):
+                            if isinstance(t, FuncNode) and _trace_package(m.rel) and any(isinstance(a, ast.ClassDef) for a in ancestors(t)):
+                                out.extend(callee(mod, fn, c, m, t, depth))
+                        continue
+                    held = f"the callable stored in the attribute `{f.attr}` of `{norm(f.value)[:30]}`"
+                    defs = []
+                    for v in vals:
+                        if isinstance(v, ast.Constant) and v.value is None:
+                            continue
+                        dv = _closures_returned(repo, mod, v)
+                        if dv is None:
+                            dv = _callee_defs(repo, mod, fn, v)
+                        if dv is None:
+                            defs = None
+                            break
+                        defs.extend(dv)
+                    if defs is not None and not vals:
+                        defs = None
+                    if defs is not None:
+                        # every value the code itself puts there is a callable of the repository: decided on its body
+                        inner = [(d, w) for d in defs for w in body_findings(mod, d, depth)]
+                        if inner:
+                            d, w = inner[0]
+                            out.append((mod.rel, qn, c, f"`{norm(c)[:60]}` invokes {held}, bound to `{norm(d)[:50]}`: {w[3]}"))
+                        continue
+                else:
+                    defs = _callee_defs(repo, mod, fn, f)
+                    held = f"a callable computed at run time (`{norm(f)[:50]}`)"
+                if defs is None:
+                    out.append((mod.rel, qn, c, f"`{norm(c)[:70]}` invokes {held}: which code runs is decided by whoever supplied it, and an exception it raises escapes"))
+                    continue
+                for d in defs:
+                    for w in body_findings(mod, d, depth):
+                        out.append((mod.rel, qn, c, f"`{norm(c)[:60]}` invokes {held}: {w[3]}"))
+                        break
+        return out
+
+    def body_findings(mod, d: ast.AST, depth: int) -> List[Tuple[str, str, ast.AST, str]]:
+        if id(d) not in done:
+            done[id(d)] = []
+            home = next((s for s in ancestors(d) if isinstance(s, FuncNode)), d)
+            roots = [d.body] if isinstance(d, ast.Lambda) else list(d.body)
+            done[id(d)] = scan(mod, home if isinstance(d, ast.Lambda) else d, roots, depth + 1) if depth < 5 else []
+        return done[id(d)]
+
+    parts: List[Tuple[ast.AST, List[ast.AST]]] = []
+    for n in ast.walk(ex):
+        if isinstance(n, (ast.If, ast.IfExp)):
+            v = fold(n.test)
+            if v is None:
+                continue
+            part = n.body if v else n.orelse
+            roots = part if isinstance(part, list) else [part]
+            if roots:
+                parts.append((n, roots))
+    covered = [{id(x) for rt in roots for x in ast.walk(rt)} for _n, roots in parts]
+    n_ret = 0
+    for i, (n, roots) in enumerate(parts):
+        if any(id(n) in cov for j, cov in enumerate(covered) if j != i):
+            continue  # part of an enclosing trace-only block
+        inner = covered[i]
+        ids = [x.id for x in g.nodes if (x.ast is not None and id(x.ast) in inner) or (x.part is not None and id(x.part) in inner)]
+        if not ids and isinstance(n, ast.IfExp):
+            st = stmt_of(n)
+            ids = [x.id for x in g.nodes if x.ast is st]
+        returning = not ids or g.ret_exit in g.reach(ids)
+        what = "block" if isinstance(n, ast.If) else "conditional-expression arm"
+        if not returning:
+            R.note(f"C10-D1-trace-only-work-contained: trace-only {what} at line {n.lineno} of execute() lies on a path that ends in a re-raise (the run raises in both modes) - not examined here, see DESIGN 9.2 R9")
+            continue
+        n_ret += 1
+        bad = scan(omod, ex, roots, 0)
+        if bad:
+            told: Set[int] = set()
+            for rel, qn, c, w in bad:
+                if id(c) in told or len(told) >= 4:
+                    continue
+                told.add(id(c))
+                where = "" if (rel, qn) == (ORCH, EXECUTE) else f" (in {qn}, reached from the trace-only {what} at line {n.lineno} of execute())"
+                why = f"{w}{where} - this work is done only when a trace driver is attached, on a path where the untraced run goes on to return: a failure in it (keys that do not sort, a value whose `__eq__` / `__repr__` raises, a provider that raises) makes the traced run raise where the untraced run returns"
+                R.check(False, r, rel, qn, norm(stmt_of(c))[:90], why, c.lineno)
+        else:
+            R.ok(r, ORCH, EXECUTE, f"trace-only {what} at line {n.lineno} (`{norm(n.test)[:40]}`): work held as data / open trace-package work: none")
+    if n_ret < 3:
+        raise AnalysisError(f"execute(): only {n_ret} trace-only parts on a returning path were recognised")
